@@ -14,8 +14,8 @@
 
 use nom::{
     branch::alt,
-    character::complete::{char, i32, multispace0},
-    combinator::map,
+    character::complete::{char, digit1, i32, multispace0},
+    combinator::{map, not},
     multi::separated_list1,
     sequence::{delimited, preceded, terminated},
     IResult,
@@ -97,7 +97,8 @@ fn key_path(input: &[u8]) -> IResult<&[u8], KeyPath<'_>> {
     alt((
         map(i32, KeyPath::Index),
         map(string, KeyPath::QuotedName),
-        map(raw_string, KeyPath::Name),
+        // plain names do not start with a digit: an integer beyond the i32 range is not a name
+        map(preceded(not(digit1), raw_string), KeyPath::Name),
     ))(input)
 }
 
